@@ -284,7 +284,9 @@ void TraceRecorder::saveLog(const char *logFile, const char *processName)
   }
   // We need to remove the last , we output to ensure the JSON array is correct
   // Overwrite it with the ] character.
-  fout.seekp(-1, std::ios::cur);
+  // replace the trailing comma (if anything was written at all) by the closing bracket
+  if (fout.tellp() > std::streampos(1))
+    fout.seekp(-1, std::ios::cur);
   fout << "]";
 }
 
